@@ -144,7 +144,8 @@ pub fn vx_all_ws(x: &[u8]) -> (r: bool)
 
 // slice == / starts_with / ends_with against a literal
 pub fn vx_eq(x: &[u8], y: &[u8]) -> (r: bool)
-    ensures r == (x@ == y@)
+    ensures r == (x@ == y@),
+        r == (x.len() == y.len() && forall|k: int| 0 <= k < y.len() ==> #[trigger] x@[k] == y@[k]),
 {
     if x.len() != y.len() { return false; }
     let mut i: usize = 0;
@@ -167,7 +168,8 @@ pub open spec fn seq_ends_with(s: Seq<u8>, p: Seq<u8>) -> bool {
 }
 
 pub fn vx_starts_with(x: &[u8], p: &[u8]) -> (r: bool)
-    ensures r == seq_starts_with(x@, p@)
+    ensures r == seq_starts_with(x@, p@),
+        r == (x.len() >= p.len() && forall|k: int| 0 <= k < p.len() ==> #[trigger] x@[k] == p@[k]),
 {
     if x.len() < p.len() { return false; }
     let mut i: usize = 0;
@@ -266,3 +268,36 @@ pub fn vx_all_alnum_or2(x: &[u8], b1: u8, b2: u8) -> (r: bool)
     }
     true
 }
+
+// "all bytes of s[a..] are in class" == "all bytes of s from index a on are in class" (bridges `X[a..].iter().all(..)`)
+pub proof fn lemma_all_hexdigit_from(s: Seq<u8>, a: int)
+    requires 0 <= a <= s.len()
+    ensures (forall|j: int| 0 <= j < s.subrange(a, s.len() as int).len() ==> is_hexdigit(#[trigger] s.subrange(a, s.len() as int)[j]))
+         == (forall|k: int| a <= k < s.len() ==> is_hexdigit(#[trigger] s[k]))
+{
+    let sub = s.subrange(a, s.len() as int);
+    if forall|j: int| 0 <= j < sub.len() ==> is_hexdigit(#[trigger] sub[j]) {
+        assert forall|k: int| a <= k < s.len() implies is_hexdigit(#[trigger] s[k]) by { assert(sub[k - a] == s[k]); }
+    }
+    if forall|k: int| a <= k < s.len() ==> is_hexdigit(#[trigger] s[k]) {
+        assert forall|j: int| 0 <= j < sub.len() implies is_hexdigit(#[trigger] sub[j]) by { assert(sub[j] == s[j + a]); }
+    }
+}
+pub proof fn lemma_all_digit_from(s: Seq<u8>, a: int)
+    requires 0 <= a <= s.len()
+    ensures (forall|j: int| 0 <= j < s.subrange(a, s.len() as int).len() ==> is_digit(#[trigger] s.subrange(a, s.len() as int)[j]))
+         == (forall|k: int| a <= k < s.len() ==> is_digit(#[trigger] s[k]))
+{
+    let sub = s.subrange(a, s.len() as int);
+    if forall|j: int| 0 <= j < sub.len() ==> is_digit(#[trigger] sub[j]) {
+        assert forall|k: int| a <= k < s.len() implies is_digit(#[trigger] s[k]) by { assert(sub[k - a] == s[k]); }
+    }
+    if forall|k: int| a <= k < s.len() ==> is_digit(#[trigger] s[k]) {
+        assert forall|j: int| 0 <= j < sub.len() implies is_digit(#[trigger] sub[j]) by { assert(sub[j] == s[j + a]); }
+    }
+}
+
+pub proof fn lemma_sub1_index(s: Seq<u8>)
+    requires s.len() >= 1
+    ensures forall|k: int| 0 <= k < s.len() - 1 ==> #[trigger] s.subrange(1, s.len() as int)[k] == s[k + 1]
+{}
